@@ -2133,13 +2133,16 @@ where
     /// plugin refused it: a later Bind must not run a refused statement from the cache.
     fn forget_buffered_prepared_statements(&mut self) {
         for data in self.extended_protocol_data_buffer.iter() {
+            // By the name the client gave it: the rewritten name is shared by all
+            // statements with the same text, earlier ones of this client included.
             if let ExtendedProtocolData::Parse {
-                metadata: Some((parse, _)),
-                ..
+                data,
+                metadata: Some(_),
             } = data
             {
-                self.prepared_statements
-                    .retain(|_, (cached, _)| cached.name != parse.name);
+                if let Ok(client_given_name) = Parse::get_name(data) {
+                    self.prepared_statements.remove(&client_given_name);
+                }
             }
         }
     }
